@@ -1209,28 +1209,28 @@ impl<'a> TLVSequenceTLVIter<'a> {
     fn try_next(&mut self) -> Result<Option<TLV<'a>>, Error> {
         let current = self.seq.current()?;
         if current.is_empty() {
-            return Ok(None);
-        }
+            // Either the sequence is exhausted, or it starts with a container-end marker
+            if self.nesting == 0 || self.seq.0.is_empty() {
+                // The marker (if any) closes the container whose elements we iterate over
+                return Ok(None);
+            }
 
-        self.advance()?;
-
-        Ok(Some(TLV::new(current.tag()?, current.value()?)))
-    }
-
-    fn advance(&mut self) -> Result<(), Error> {
-        if self.nesting > 0 || !self.seq.0.is_empty() && !self.seq.control()?.is_container_end() {
+            // The marker closes a nested container: report it and step over it
+            self.nesting -= 1;
             self.seq = self.seq.next_enter()?;
 
-            let control = self.seq.control()?;
-
-            if control.is_container_start() {
-                self.nesting += 1;
-            } else if control.is_container_end() {
-                self.nesting -= 1;
-            }
+            return Ok(Some(TLV::end_container()));
         }
 
-        Ok(())
+        // `nesting` counts the nested containers that were entered (by `next_enter`)
+        // but not left yet, starting with the current element if it is a container
+        if current.control()?.is_container_start() {
+            self.nesting += 1;
+        }
+
+        self.seq = self.seq.next_enter()?;
+
+        Ok(Some(TLV::new(current.tag()?, current.value()?)))
     }
 }
 
